@@ -302,6 +302,24 @@ func init() {
 		}
 		return []TextEdit{p.editReplace(fld, "*wireInt"), p.editReplace(asg, "b.maxLength = (*int)(bt.MaxLength)"), p.editRange(fd.End(), fd.End(), "\n\ntype wireInt int\n")}, nil
 	}})
+	registerControl(&ControlDef{Name: "transact blocks on the probe's traffic channel again", Rule: "L-CHAN", Expect: "(*client.ovsdbClient).transact|send on client.ovsdbClient.trafficSeen", Edit: func(p *Program) ([]TextEdit, error) {
+		fd, _, err := p.funcDecl("client", "ovsdbClient", "transact")
+		if err != nil {
+			return nil, err
+		}
+		var sel ast.Node
+		ast.Inspect(fd.Body, func(n ast.Node) bool {
+			if ss, ok := n.(*ast.SelectStmt); ok && strings.Contains(p.text(ss), "o.trafficSeen <-") {
+				sel = ss
+			}
+			return true
+		})
+		if sel == nil {
+			return nil, fmt.Errorf("select on trafficSeen not found in transact")
+		}
+		return []TextEdit{p.editReplace(sel, "o.trafficSeen <- struct{}{}")}, nil
+	}})
+	ctl("update2 handler takes rpcMutex", "L-RPC", "holding client.ovsdbClient.rpcMutex/R needed by handler update2", "client", "ovsdbClient", "update2", kStmt, "db.cacheMutex.Lock()", 0, before("o.rpcMutex.Lock()\no.rpcMutex.Unlock()"))
 	ctl("lock taken before waiting for the handlers", "L-WAIT", "handleDisconnectNotification|WaitGroup.Wait", "client", "ovsdbClient", "handleDisconnectNotification", kStmt, "o.handlerShutdown.Wait()", 0, to("o.shutdownMutex.Lock()\no.handlerShutdown.Wait()\no.shutdownMutex.Unlock()"))
 	ctl("transact accepts an empty operation list", "G-ARGS", "at least one operation", "server", "OvsdbServer", "Transact", kExpr, "len(args) < 2", 0, to("len(args) < 1"))
 	ctl("delete-by-keys special case for every column", "P-NIL-TYPEOBJ", "addMutateOperation|deref", "updates", "ModelUpdates", "addMutateOperation", kExpr, `mutation.Mutator == "delete" && column.Type == ovsdb.TypeMap && reflect.TypeOf(mutation.Value) != reflect.TypeOf(ovsdb.OvsMap{})`, 0, to(`mutation.Mutator == "delete" && reflect.TypeOf(mutation.Value) != reflect.TypeOf(ovsdb.OvsMap{})`))
